@@ -703,7 +703,10 @@ def run(case):
             yields += r['lock_yields']
     for plan in case['multi']:
         pl = {}
-        for idx, target in plan:
+        for entry in plan:
+            if len(entry) != 2:
+                continue        # (shrinker artefact)
+            idx, target = entry
             pl[1 + (idx % steps)] = target % nthreads
         r = check_run(case, pl, out)
         runs += 1
